@@ -38,6 +38,7 @@ type vfCleanScenario struct {
 	Env    string            `json:"env"`
 	Clean2 bool              `json:"clean2,omitempty"` // run Clean a second time (idempotence)
 	DirName string           `json:"dirname,omitempty"` // name of the snapshot directory ("" = snaps)
+	DirSpell string          `json:"dirspell,omitempty"` // how the absolute Dir option is spelled: "" | slash | dot | dotdot | double
 }
 
 type vfCleanObs struct {
@@ -115,7 +116,7 @@ func vfRunClean(c *vfCtx, sc vfCleanScenario) *vfCleanObs {
 			t.end()
 			m.skips++
 		}
-		o.callObs = append(o.callObs, vfRunTests(dir, m, sc.Tests)...)
+		o.callObs = append(o.callObs, vfRunTests(vfSpellDir(dir, sc.DirSpell), m, sc.Tests)...)
 	}
 	vfPlantSentinel(root)
 	o.before = vfSnapDir(dir)
@@ -246,4 +247,19 @@ func vfNaturalCmp(a, b string) (cmp int, tie bool) {
 		return 1, tie
 	}
 	return 0, tie
+}
+
+// vfSpellDir returns a non-canonical spelling of the same absolute directory.
+func vfSpellDir(dir, how string) string {
+	switch how {
+	case "slash":
+		return dir + "/"
+	case "dot":
+		return filepath.Dir(dir) + "/./" + filepath.Base(dir)
+	case "dotdot":
+		return dir + "/../" + filepath.Base(dir)
+	case "double":
+		return filepath.Dir(dir) + "//" + filepath.Base(dir)
+	}
+	return dir
 }
